@@ -22,6 +22,8 @@ def run_wp(ck, names, ms, prefix=""):
         ck.under_contract(c["target"])
         if pst != "ok":       # hard wall-clock limit or worker crash: undecided, never a verdict
             r = dict(error=f"verifier worker {pst}: {str(r)[:200]}", dropped=[], vcs=[], sha=None)
+        for a in c.get("assumptions", []):
+            ck.assume(f"{name}: {a}")
         if r.get("partial_loops"):
             ck.assume(f"{name}: termination of loop(s) {r['partial_loops']} is not proved (partial correctness only)")
         dropped = r["dropped"]
